@@ -181,3 +181,43 @@ Proof.
     repeat (destruct E as [E|E]; [rewrite <- E; unfold helper_vars, plural; simpl; split; intuition discriminate|]). destruct E.
   - rewrite E. unfold helper_vars, plural. simpl. split; intuition discriminate.
 Qed.
+
+(* ------------------------------------------------------------------ the tail of a rule body is safe *)
+Lemma tail_stmts_declare k m head : map fst (tail_stmts k m head) = declared k m head.
+Proof.
+  unfold tail_stmts, declared. rewrite !map_app, !map_map. simpl. destruct (Nat.eqb m 0); reflexivity.
+Qed.
+
+Lemma safe_from_app env a b : safe_from env (a ++ b) = safe_from env a && safe_from (rev (map fst a) ++ env) b.
+Proof.
+  revert env. induction a as [|[d us] a IH]; intros env; simpl; [reflexivity|].
+  rewrite IH. rewrite <- app_assoc. simpl. now rewrite andb_assoc.
+Qed.
+Lemma safe_no_reads env (f : nat -> string) l : safe_from env (map (fun i => (f i, [])) l) = true.
+Proof. revert env. induction l as [|i l IH]; intros env; simpl; auto. Qed.
+Lemma in_env x (l pre post : list string) : In x l -> in_strs x (pre ++ rev l ++ post) = true.
+Proof.
+  intros H. unfold in_strs. apply existsb_exists. exists x. split; [|apply String.eqb_refl].
+  apply in_or_app. right. apply in_or_app. left. now apply -> in_rev.
+Qed.
+Lemma all_in_env (l pre post : list string) : forallb (fun u => in_strs u (pre ++ rev l ++ post)) l = true.
+Proof. apply forallb_forall. intros u Hu. now apply in_env. Qed.
+
+(* every variable the tail of a rule body reads has been bound by an earlier statement of that tail, for any number of
+   constraints and message placeholders (an unbound msg_var_i / _result_i makes the engine reject the module as unsafe) *)
+Theorem tail_stmts_safe : forall k m head, safe_from [] (tail_stmts k m head) = true.
+Proof.
+  intros k m head. unfold tail_stmts. rewrite !safe_from_app, !safe_no_reads. rewrite !map_map. simpl (map (fun x => fst _) _).
+  set (R := map result_var (seq 0 k)). set (M := map msg_var (seq 0 m)).
+  change (map (fun x : nat => result_var x) (seq 0 k)) with R. change (map (fun x : nat => msg_var x) (seq 0 m)) with M.
+  destruct (Nat.eqb m 0) eqn:Em; cbn [map fst rev app safe_from forallb andb].
+  - apply andb_true_intro; split; [apply andb_true_intro; split|reflexivity].
+    + reflexivity.
+    + exact (all_in_env R ("message" :: rev M) []).
+  - pose proof (all_in_env M [] (rev R ++ [])) as H1.
+    pose proof (all_in_env R ("message" :: "message_vars" :: rev M) []) as H2.
+    apply andb_true_intro; split.
+    { apply andb_true_intro; split; [exact H1|reflexivity]. }
+    apply andb_true_intro; split; [reflexivity|].
+    apply andb_true_intro; split; [apply andb_true_intro; split; [reflexivity|exact H2]|reflexivity].
+Qed.
